@@ -185,9 +185,10 @@ def handleOp (op impl : String) : Out :=
         | some s => { model := s, spec := if a.tips.isEmpty then "pref=nil" else if prefOK impl then "*" else "!preferred-not-maximal" }
         | none => badOp
       | "prefd", _ =>
-        match prefOut cwd a with
-        | some s => { model := s, spec := if a.tips.isEmpty then "pref=nil" else if prefOK impl then "*" else "!preferred-not-maximal",
-                      cls := if mixedClass a.p a.tips then "mixed-metric" else "" }
+        -- PreferredWithDensity orders the whole set by one metric (windowMetricFor); maximality and
+        -- order-independence are demanded for that order (GV.Props.C41.PreferredWithDensity_maximal)
+        match prefOut (compareWithDensityMetric a.p (windowMetricFor a.p a.tips)) a with
+        | some s => { model := s, spec := if a.tips.isEmpty then "pref=nil" else if prefOK impl then "*" else "!preferred-not-maximal" }
         | none => badOp
       | _, _ => badOp
   | _ => badOp
